@@ -22,11 +22,13 @@
 (* in Go map order, i.e. any order).  DiscardUpto(off) removes the chunk   *)
 (* files strictly below the chunk that holds off.                          *)
 (*                                                                         *)
-(* Barrier = FALSE is the code as transcribed.  Barrier = TRUE is the      *)
-(* design that keeps the property: the walk bound is taken at an instant   *)
-(* at which no committer is between "values appended" and "id assigned"    *)
-(* and it is the last PRE-committed id (a read/write lock held shared by   *)
-(* committers over that window and taken exclusively around the read).     *)
+(* SeeInFlight = FALSE, BoundPre = FALSE, HoldLogs = TRUE is the code as   *)
+(* transcribed.  The design that keeps the property: a committer registers *)
+(* (value log, size of the log) before it appends and deregisters after    *)
+(* its id was assigned; TruncateUptoTx lowers its tombstones to the        *)
+(* registered offsets (SeeInFlight, step TSnap) BEFORE it reads the walk   *)
+(* bound, the bound is the last PRE-committed id (BoundPre), and a value   *)
+(* log is released as soon as its chunks were discarded (HoldLogs = FALSE).*)
 (* FrontLt = TRUE is the seeded variant `j < maxTxID` of the forward loop. *)
 (*                                                                         *)
 (* ExportTx(id) reads the values one by one under _valBsMux, modelled as   *)
@@ -45,7 +47,7 @@ CONSTANTS M,               \* number of value logs (MaxIOConcurrency)
           MaxExports,      \* number of ExportTx calls
           NE,              \* exporter processes
           MaxAborts, MaxRestarts,
-          Barrier, FrontLt, UnlockOnPartial,
+          SeeInFlight, BoundPre, FrontLt, UnlockOnPartial,
           HoldLogs,        \* TRUE (code): every value log TruncateUptoTx touched stays locked until the call returns
           SplitCommit,     \* TRUE: pre-commit (id assigned) and commit are separate steps (external commit allowance)
           Atomic,          \* TRUE: a running TruncateUptoTx / ExportTx is not interleaved with anything else
@@ -61,12 +63,13 @@ Exps    == 1..NE
 
 ShapeSet ==
   CASE Shapes = "min"  -> {<<1>>, <<2>>}
+    [] Shapes = "exp"  -> {<<1>>, <<0, 1>>, <<1, 1>>}
     [] Shapes = "std"  -> {<<1>>, <<2>>, <<0, 1>>, <<1, 1>>}
     [] Shapes = "rich" -> {<<>>, <<0>>, <<1>>, <<2>>, <<3>>, <<0, 1>>, <<1, 0>>, <<1, 1>>, <<2, 1>>, <<1, 0, 1>>, <<0, 0, 2>>}
     [] OTHER           -> {<<1>>}
 
 VARIABLES vlog,        \* vlog[k]: sequence of placements [owner, off, len]
-          wr,          \* wr[w] = [pc, k, lens, offs, id]   pc: idle -> appended -> precommitted -> committed | aborted
+          wr,          \* wr[w] = [pc, k, base, lens, offs, id]   pc: idle -> appended -> precommitted -> committed | aborted
           txlog,       \* txlog[id] = [w, k, lens, offs]: the transaction records (headers, entry offsets, digests)
           committed,   \* LastCommittedTxID ; Len(txlog) = LastPrecommittedTxID
           delBelow,    \* delBelow[k]: chunk files of log k with index < delBelow[k] were removed
@@ -84,7 +87,7 @@ RECURSIVE SumTo(_, _)
 SumTo(s, n) == IF n = 0 THEN 0 ELSE s[n] + SumTo(s, n - 1)
 Size(k) == IF vlog[k] = <<>> THEN 0 ELSE vlog[k][Len(vlog[k])].off + vlog[k][Len(vlog[k])].len
 NoTomb == [k \in Logs |-> -1]
-IdleW == [pc |-> "idle", k |-> 0, lens |-> <<>>, offs |-> <<>>, id |-> 0]
+IdleW == [pc |-> "idle", k |-> 0, base |-> 0, lens |-> <<>>, offs |-> <<>>, id |-> 0]
 IdleT == [ph |-> "idle", n |-> 0, i |-> 0, j |-> 0, max |-> 0, tomb |-> NoTomb, pend |-> {}, want |-> 0, held |-> {}]
 IdleX == [ph |-> "idle", id |-> 0, i |-> 0, trunc |-> FALSE]
 
@@ -99,7 +102,7 @@ Log(r) == hist' = Append(hist, [r EXCEPT !.op = r.op] @@ Obs)
 
 -----------------------------------------------------------------------------
 (* initial state *)
-PrimedW(w) == [pc |-> "committed", k |-> w, lens |-> <<1>>, offs |-> <<0>>, id |-> w]
+PrimedW(w) == [pc |-> "committed", k |-> w, base |-> 0, lens |-> <<1>>, offs |-> <<0>>, id |-> w]
 Init ==
   /\ vlog = [k \in Logs |-> IF Primed THEN <<[owner |-> k, off |-> 0, len |-> 1]>> ELSE <<>>]
   /\ wr = [w \in Writers |-> IF Primed /\ w <= M THEN PrimedW(w) ELSE IdleW]
@@ -119,7 +122,7 @@ AppendValues(w, k, ls) ==
          offs == [e \in 1..Len(ls) |-> IF ls[e] = 0 THEN 0 ELSE base + SumTo(ls, e - 1)]
          all  == [e \in 1..Len(ls) |-> [owner |-> w, off |-> offs[e], len |-> ls[e]]]
      IN /\ vlog' = [vlog EXCEPT ![k] = @ \o SelectSeq(all, LAMBDA p : p.len > 0)]
-        /\ wr' = [wr EXCEPT ![w] = [pc |-> "appended", k |-> k, lens |-> ls, offs |-> offs, id |-> 0]]
+        /\ wr' = [wr EXCEPT ![w] = [pc |-> "appended", k |-> k, base |-> base, lens |-> ls, offs |-> offs, id |-> 0]]
         /\ UNCHANGED <<txlog, committed, delBelow, cut, tr, ntrunc, ex, exportLock, nexp, xbad, naborts, nrestarts>>
         /\ Log([E0 EXCEPT !.op = "append", !.w = w, !.k = k, !.lens = ls, !.offs = offs])
 
@@ -169,11 +172,17 @@ BackRec(i, tomb) == IF BackMore(i, tomb) THEN BackRec(i - 1, BackOne(i, tomb)) E
 RECURSIVE FrontRec(_, _, _)
 FrontRec(j, max, tomb) == IF FrontMore(j, max) THEN FrontRec(j + 1, max, FrontOne(j, tomb)) ELSE tomb
 
-WalkBound == IF Barrier THEN Len(txlog) ELSE committed
+\* design only: values that are in a value log while their committer has no id yet keep their chunks
+InFlightIn(k) == {w \in Writers : wr[w].pc = "appended" /\ wr[w].k = k}
+LowerToInFlight(tomb) ==
+  [k \in Logs |-> IF tomb[k] < 0 THEN tomb[k]
+                  ELSE LET bs == {wr[w].base : w \in InFlightIn(k)} \cup {tomb[k]}
+                       IN CHOOSE b \in bs : \A c \in bs : b <= c]
+WalkBound == IF BoundPre THEN Len(txlog) ELSE committed
 \* DiscardUpto(off): chunk files with index < off \div F are removed
 DelAfter(del, tomb) == [k \in Logs |-> IF tomb[k] >= 0 THEN Max(del[k], tomb[k] \div F) ELSE del[k]]
 \* the whole call on a quiescent store
-TombstonesFor(n) == FrontRec(n, WalkBound, BackRec(n, NoTomb))
+TombstonesFor(n) == FrontRec(n, WalkBound, IF SeeInFlight THEN LowerToInFlight(BackRec(n, NoTomb)) ELSE BackRec(n, NoTomb))
 AtomicDel(n, del) == DelAfter(del, TombstonesFor(n))
 
 (* TruncateUptoTx: the steps *)
@@ -192,14 +201,19 @@ TBack(t) ==
   /\ tr[t].ph = "back"
   /\ IF FineWalk /\ BackMore(tr[t].i, tr[t].tomb)
        THEN tr' = [tr EXCEPT ![t].tomb = BackOne(tr[t].i, @), ![t].i = @ - 1]
-       ELSE tr' = [tr EXCEPT ![t].tomb = BackRec(tr[t].i, @), ![t].ph = "readmax"]
+       ELSE tr' = [tr EXCEPT ![t].tomb = BackRec(tr[t].i, @), ![t].ph = IF SeeInFlight THEN "snap" ELSE "readmax"]
   /\ UNCHANGED <<delBelow, cut, ntrunc>> /\ TUnch
   /\ Log([E0 EXCEPT !.op = "tback", !.t = t])
 
-\* maxTxID := s.LastCommittedTxID()   (design: exclusive lock => no committer is between append and id)
+TSnap(t) ==
+  /\ tr[t].ph = "snap"
+  /\ tr' = [tr EXCEPT ![t].tomb = LowerToInFlight(@), ![t].ph = "readmax"]
+  /\ UNCHANGED <<delBelow, cut, ntrunc>> /\ TUnch
+  /\ Log([E0 EXCEPT !.op = "tsnap", !.t = t])
+
+\* maxTxID := s.LastCommittedTxID()   (design: LastPrecommittedTxID)
 TReadMax(t) ==
   /\ tr[t].ph = "readmax"
-  /\ Barrier => \A w \in Writers : wr[w].pc # "appended"
   /\ tr' = [tr EXCEPT ![t].max = WalkBound, ![t].j = tr[t].n, ![t].ph = "front"]
   /\ UNCHANGED <<delBelow, cut, ntrunc>> /\ TUnch
   /\ Log([E0 EXCEPT !.op = "treadmax", !.t = t, !.id = WalkBound])
@@ -289,7 +303,7 @@ Restart ==
 Next ==
   \/ \E w \in Writers : (\E k \in Logs, ls \in ShapeSet : AppendValues(w, k, ls)) \/ Precommit(w) \/ Abort(w)
   \/ Commit
-  \/ \E t \in Truncs : (\E n \in 1..committed : TBegin(t, n)) \/ TBack(t) \/ TReadMax(t) \/ TFront(t)
+  \/ \E t \in Truncs : (\E n \in 1..committed : TBegin(t, n)) \/ TBack(t) \/ TSnap(t) \/ TReadMax(t) \/ TFront(t)
                        \/ (\E k \in Logs : TWant(t, k) \/ TDiscard(t, k))
   \/ \E e \in Exps : (\E id \in 1..committed : XBegin(e, id)) \/ XLock(e) \/ XEntry(e) \/ XEnd(e)
   \/ Restart
